@@ -726,7 +726,8 @@ Record ctl := mkCtl { ct_events : list (string * Z); ct_writes : list string; ct
                       ct_verr_expected : bool;   (* the object of this sync is of our class and fails validation *)
                       ct_verr_reported : bool;   (* an Event about it carried the text of the validation error *)
                       ct_probe : Z;              (* the real informer handler on this event: 0 not probed, 1 passed on to the queue, 2 dropped *)
-                      ct_files : list string     (* per-resource configuration files that exist after the sync *) }.
+                      ct_files : list string;    (* per-resource configuration files that exist after the sync *)
+                      ct_pt : list (string * string)  (* tls-passthrough-hosts.conf after the sync: host -> unix socket *) }.
 
 (* C10 at the controller level: one file per served resource, under the name the Configurator gives it *)
 Definition file_of (r : resource) : string :=
@@ -739,6 +740,25 @@ Definition file_of (r : resource) : string :=
 
 Definition files_ok (ob : obs) (files : list string) : bool :=
   eqb_of (list_eq_dec string_dec) (ssort (map file_of (ob_res ob))) (ssort files).
+
+(* the TLS passthrough host map routes exactly the hosts of the TLS passthrough TransportServers being served,
+   each to the socket of its TransportServer *)
+Definition pt_expected (ob : obs) : list (string * string) :=
+  filter_map (fun r => match r with
+                       | RTS tc => let t := tc_ts tc in
+                                   if is_passthrough t && negb (String.eqb (t_host t) "")
+                                   then Some (t_host t, "unix:/var/lib/nginx/passthrough-" ++ m_ns (t_meta t) ++ "_" ++ m_name (t_meta t) ++ ".sock")
+                                   else None
+                       | _ => None end) (ob_res ob).
+
+Definition pt_ok (ob : obs) (pt : list (string * string)) : bool :=
+  subset_locs (pt_expected ob) pt && subset_locs pt (pt_expected ob).
+
+Fixpoint pt_run (cs : list ctl) (i : Z) : Z :=
+  match cs with
+  | [] => 0
+  | ct :: r => if pt_ok (ct_obs ct) (ct_pt ct) then pt_run r (i + 1) else i
+  end.
 
 Fixpoint files_run (cs : list ctl) (i : Z) : Z :=
   match cs with
@@ -787,4 +807,4 @@ Definition leader_foreign (es : list event) (writes : list string) (pol_writes :
 Definition ctl_case (id : Z) (c : cfg) (es : list event) (os : list obs) (final : obs)
            (alts : list (list event * obs)) (cs : list ctl) (lw : list string) (pw : list (string * string)) : list Z :=
   let '(dx, ds, dc, df, (dd, dk)) := ctl_run c objs0 [] [] es os cs 1 (0, 0, 0, 0, (0, 0)) in
-  [id; dx; ds; dc; df; Z.of_nat (List.length es); dd; dk; leader_foreign es lw pw; files_run cs 1].
+  [id; dx; ds; dc; df; Z.of_nat (List.length es); dd; dk; leader_foreign es lw pw; files_run cs 1; pt_run cs 1].
